@@ -105,6 +105,28 @@ def g0 (x : Array α) (i : Nat) : α := x.getD i (nat 0)
   | "dr_action", "GAL" => some (do need x 15; return matToArray (Galilei.dr_action (ofArray 11 x) (ofArray 4 x 11)))
   | _, _ => none
 
+def parseDims (g : String) : List Nat := (g.splitOn "x").map (fun t => t.toNat?.getD 0)
+
+/-- generic-size helpers of derivatives.hpp: group token carries the sizes, e.g. `dmp 3x4` (n × nvar),
+    `d2fog 2x3x4` (no × ny × nx); inputs row-major in the order of the C++ arguments -/
+def runDerivGeneric (op grp : String) (x : Array α) : Option (Except String (Array α)) :=
+  match op, parseDims grp with
+  | "dmp", [n, nvar] => some (do
+      need x (2 * n * n + 2 * n * (n * nvar))
+      let A : Mat α n n := matOfArray n n x 0
+      let dA : Mat α n (n * nvar) := matOfArray n (n * nvar) x (n * n)
+      let B : Mat α n n := matOfArray n n x (n * n + n * (n * nvar))
+      let dB : Mat α n (n * nvar) := matOfArray n (n * nvar) x (2 * n * n + n * (n * nvar))
+      return matToArray (Derivs.d_matrix_product A dA B dB))
+  | "d2fog", [no, ny, nx] => some (do
+      need x (no * ny + ny * (no * ny) + ny * nx + nx * (ny * nx))
+      let Jf : Mat α no ny := matOfArray no ny x 0
+      let Hf : Mat α ny (no * ny) := matOfArray ny (no * ny) x (no * ny)
+      let Jg : Mat α ny nx := matOfArray ny nx x (no * ny + ny * (no * ny))
+      let Hg : Mat α nx (ny * nx) := matOfArray nx (ny * nx) x (no * ny + ny * (no * ny) + ny * nx)
+      return matToArray (Derivs.d2_fog Jf Hf Jg Hg))
+  | _, _ => none
+
 /-- derivative helpers of derivatives.hpp on a group -/
 @[specialize] def runDerivOp (G : LieModel α) (op : String) (x : Array α) : Option (Except String (Array α)) :=
   match op with
@@ -116,6 +138,9 @@ def g0 (x : Array α) (i : Nat) : α := x.getD i (nat 0)
 
 @[specialize] def runOp (op grp : String) (x : Array α) : Except String (Array α) :=
   match runSpecial op grp x with
+  | some r => r
+  | none =>
+  match runDerivGeneric op grp x with
   | some r => r
   | none =>
     match groupOf (α := α) grp with
